@@ -199,12 +199,14 @@ def judge(ctx, sc, seed, replay):
             prot.timings.FIND_TTL = sc["find_ttl"]
             ctx.count("find_ttl_assigned_after_the_filters_were_registered")
 
+    # with a later start()-again the whole stack is started through the protocol-level start() from the beginning
+    first_start = prot.start if any(r["how"] == "again" for r in sc.get("restarts", ())) else prot.discovery.start
     if sc.get("late_watch"):
-        h.at(sc["s0"], lambda: (prot.discovery.start(), setup()))
+        h.at(sc["s0"], lambda: (first_start(), setup()))
         ctx.count("filters_registered_right_after_start")
     else:
         h.at(0.0, setup)
-        h.at(sc["s0"], prot.discovery.start)
+        h.at(sc["s0"], first_start)
     for e in sc["events"]:
         h.at(e[0], prot.datagram_received, e[6], SOURCES[e[2]], False, rank=e[1])
     for r in sc.get("restarts", ()):
